@@ -68,9 +68,11 @@ void Sched::spawn(int n, std::function<void(int)> body, const std::vector<int>& 
             tls_lt = lt;
             sem_wait(&lt->go);
             body(lt->id);
-            if (thread_exit_hook) thread_exit_hook();
+            // drain and switch off the store buffer before the clean-up: clean-up code frees objects it has just stored to,
+            // and an emulated buffer (unlike a real one) would commit those stores after the free
             for (auto& e : lt->buf) apply(e);
-            lt->buf.clear();
+            lt->buf.clear(); lt->tso = false;
+            if (thread_exit_hook) thread_exit_hook();
             lt->pend = {nullptr, K_NONE, 0, 0};
             tls_lt = nullptr;
             lt->state.store(ST_DONE);
